@@ -30,6 +30,7 @@ class LetFiller(Visitor):
     def __init__(self, override_dict):
         super().__init__()
         self.override_dict = override_dict or {}
+        self.registers = {}
 
     ##
     # Visitor Methods
@@ -44,6 +45,7 @@ class LetFiller(Visitor):
         """Return a new Circuit with all Constants replaced in the
         body. The new circuit will retain the same information in the
         circuit.constants attribute."""
+        self.registers = circuit.registers
         body = self.visit(circuit.body)
         statements = body[1:]
         reg_visitor = RegisterVisitor(self.override_dict)
@@ -96,37 +98,22 @@ class LetFiller(Visitor):
         return self.resolve_constant(const)
 
     def visit_NamedQubit(self, qubit):
-        """Visit a named qubit that may possibly have its index
-        remapped. Doing so will change the name of the qubit."""
-        if isinstance(qubit.alias_index, Constant):
-            new_index = self.resolve_constant(qubit.alias_index)
-            new_from = self.visit(qubit.alias_from)
-            return new_from[new_index]
-        else:
-            return qubit
+        """Visit a qubit used in a statement. It is referred to by name, so
+        that it is looked up among the registers of the new circuit
+        (whose sizes and bounds no longer contain let constants)."""
+        if self.registers.get(qubit.name) == qubit:
+            # A single-qubit alias defined by a map statement
+            return qubit.name
+        return [
+            "array_item",
+            self.visit(qubit.alias_from),
+            self.visit(qubit.alias_index),
+        ]
 
     def visit_Register(self, reg):
-        """Visit either a fundamental register or a map alias. Either may
-        contain lurking let constants."""
-        if reg.fundamental:
-            if isinstance(reg.size, Constant):
-                new_size = self.resolve_constant(reg.size)
-                return ["register", reg.name, new_size]
-            else:
-                return reg
-        else:
-            new_alias_from = self.visit(reg.alias_from)
-            if reg.alias_slice is None:
-                new_alias_slice = None
-            else:
-                new_alias_slice = slice(
-                    self.visit(reg.alias_slice.start),
-                    self.visit(reg.alias_slice.stop),
-                    self.visit(reg.alias_slice.step),
-                )
-            return Register(
-                reg.name, alias_from=new_alias_from, alias_slice=new_alias_slice
-            )
+        """Visit a register or map alias used in a statement. Like a qubit it
+        is referred to by name."""
+        return reg.name
 
     def visit_Macro(self, macro):
         """Remove any references to let constants in this macro body while
@@ -160,17 +147,34 @@ class LetFiller(Visitor):
 
 
 class RegisterVisitor(LetFiller):
-    """Specialization for handling registers and map aliases."""
+    """Specialization for handling the definitions of registers and map
+    aliases."""
 
     def __init__(self, override_dict):
         super().__init__(override_dict)
 
     def visit_NamedQubit(self, qubit):
-        """Visit a named qubit that may possibly have its index
-        remapped. Doing so will change the name of the qubit."""
-        if isinstance(qubit.alias_index, Constant):
-            new_index = self.resolve_constant(qubit.alias_index)
-            new_from = self.visit(qubit.alias_from)
-            return NamedQubit(qubit.name, new_from, new_index)
+        """Visit the definition of a single-qubit map alias."""
+        return [
+            "map",
+            qubit.name,
+            qubit.alias_from.name,
+            self.visit(qubit.alias_index),
+        ]
+
+    def visit_Register(self, reg):
+        """Visit the definition of either a fundamental register or a map
+        alias. Either may contain lurking let constants."""
+        if reg.fundamental:
+            return ["register", reg.name, self.visit(reg.size)]
+        elif reg.alias_slice is None:
+            return ["map", reg.name, reg.alias_from.name]
         else:
-            return qubit
+            return [
+                "map",
+                reg.name,
+                reg.alias_from.name,
+                self.visit(reg.alias_slice.start),
+                self.visit(reg.alias_slice.stop),
+                self.visit(reg.alias_slice.step),
+            ]
